@@ -435,6 +435,9 @@ def corpus():
         case('XyZ', [F('a', 'a', 'a/b', b'0123456789'), T('t', 'after'), F('b', 'b', 'a/b', b'abcdefghij')],
              ops=[['r', -1], ['t'], ['s', 4, 0], ['r', -5], ['r', -1], ['s', 0, 0], ['r', 3], ['r', -1000]], k=-1, blk=-1),
         case('XyZ', [F('a', 'a', 'a/b', b'0123456789'), T('t', 'after')], ops=[['s', 2, 0], ['r', -1]], k=-5, mem=90),
+        # ---- U+FEFF (BOM / zero width no-break space) at the start, in the middle and alone: an ordinary character of a value
+        case('XyZ', [T('j', '\ufeff{"id": 1}'), T('b', '\ufeff'), T('m', 'a\ufeffb'), T('\ufeffn', '\ufeff\ufeffx'),
+                     F('f', '\ufefff.txt', 'a/b', b'\xef\xbb\xbfDATA')]),
         # ---- chunk-size spellings: upper / mixed case hex (sizes with letters: 10..15, 26, 171 ...), leading zeros,
         # extensions, trailer fields
         case('XyZ', [T('a', 'v'), F('f', 'x', 'a/b', bytes(range(256)) * 2)], framing='chunked', chunks=[10, 11, 12, 13, 14, 15, 26, 171, 250],
@@ -512,7 +515,9 @@ def gen(rng, n):
                 fields.append(F(name, fn, ct, content, clen=clen))
             else:
                 if rng.random() < 0.3:
-                    data += rng.choice(['\u00e9', '\u4e2d\u6587', '\U0001f600', '\x00', '\x85', '\u2028'])
+                    data += rng.choice(['\u00e9', '\u4e2d\u6587', '\U0001f600', '\x00', '\x85', '\u2028', '\ufeff'])
+                if rng.random() < 0.08:
+                    data = rng.choice(['\ufeff', '\ufeff\ufeff', '\ufffe']) + data      # a leading BOM-like character
                 fields.append(T(name, data))
         body_len = len(encode_form(boundary.encode(), fields))
         bud = budget(fields)
